@@ -28,14 +28,14 @@ Lemma trig_put_fields s :
   gate s' = gate s.
 Proof.
   unfold trig_put. destruct (putq s); simpl; [repeat split|].
-  destruct (admit_put s); simpl; repeat split.
+  destruct (allow_put s); simpl; repeat split.
 Qed.
 
 Lemma trig_put_inv s : Inv s -> Inv (fst (trig_put s)).
 Proof.
   intros (H1 & H2 & H3 & H4). unfold trig_put. destruct (putq s) as [|r q]; simpl.
   { repeat split; auto. }
-  unfold admit_put. destruct (Nat.ltb_spec (used s) (cap s)); simpl; [|repeat split; auto].
+  unfold allow_put. destruct (Nat.ltb_spec (used s) (cap s)); simpl; [|repeat split; auto].
   destruct (match s_kind s with KBuffer => _ | _ => _ end); simpl; [|repeat split; auto].
   unfold Inv, used, contents, reserved in *; simpl. rewrite app_length; simpl.
   repeat split; auto. lia.
@@ -67,7 +67,7 @@ Lemma trig_get_inv s : Inv s -> exists s' ts, trig_get s = Some (s', ts) /\ Inv 
 Proof.
   intros HI. pose proof HI as (H1 & H2 & H3 & H4). unfold trig_get.
   destruct (getq s) as [|r q]; [eauto|].
-  unfold admit_get. destruct (Nat.ltb_spec (length (getres s)) (length (ready s))); [|eauto].
+  unfold allow_get. destruct (Nat.ltb_spec (length (getres s)) (length (ready s))); [|eauto].
   destruct (pick_some s HI H) as [it E]. rewrite E.
   apply pick_in in E as (Ei & En).
   eexists _, _. split; [reflexivity|].
@@ -84,7 +84,7 @@ Lemma trig_get_fields s s' ts :
   gate s' = gate s.
 Proof.
   unfold trig_get. destruct (getq s); [intros [= <- <-]; repeat split|].
-  destruct (admit_get s); [|intros [= <- <-]; repeat split].
+  destruct (allow_get s); [|intros [= <- <-]; repeat split].
   destruct (pick s); [|discriminate]. intros [= <- <-]. simpl. repeat split.
 Qed.
 
@@ -405,7 +405,7 @@ Definition consumes (o : op) (x : req * item) : bool :=
 Lemma trig_get_getres s s' ts x : trig_get s = Some (s', ts) -> In x (getres s) -> In x (getres s').
 Proof.
   unfold trig_get. destruct (getq s); [intros [= <- <-]; auto|].
-  destruct (admit_get s); [|intros [= <- <-]; auto].
+  destruct (allow_get s); [|intros [= <- <-]; auto].
   destruct (pick s); [|discriminate]. intros [= <- <-] H. simpl. apply in_or_app; auto.
 Qed.
 
